@@ -61,7 +61,8 @@ def gen_image(bdir, r, cd, J):
         a, b2 = sorted([nm(L), nm(L)])
         pre = (parent + b"/" if parent else b"")
         t = r.choice([b"../outside", os.fsencode(os.path.join(J, "outside")), b"../outside/sub"])
-        ents.append(treegen.Entry(pre + a, treegen.SLINK, mode=0o777, target=b"T" * len(t)))
+        # symlinks with xattrs are stored as EXTENDED symlink inodes
+        ents.append(treegen.Entry(pre + a, treegen.SLINK, mode=0o777, target=b"T" * len(t), xattrs={b"user.l": b"x"} if r.random() < 0.4 else None))
         ents.append(treegen.Entry(pre + b2, treegen.DIR, mode=0o755, mtime=5))
         dirs.append(pre + b2)
         ents.append(treegen.Entry(pre + b2 + b"/victim", treegen.FILE, content=b"overwritten", mode=0o666, mtime=3))
@@ -76,7 +77,7 @@ def gen_image(bdir, r, cd, J):
                                       xattrs={b"user.a": b"1"} if r.random() < 0.3 else None))
         elif kind < 0.85:
             t = r.choice(hostile_targets)
-            ents.append(treegen.Entry(p, treegen.SLINK, mode=0o777, target=b"T" * len(t)))
+            ents.append(treegen.Entry(p, treegen.SLINK, mode=0o777, target=b"T" * len(t), xattrs={b"user.l": b"y"} if r.random() < 0.4 else None))
         else:
             ents.append(treegen.Entry(p, r.choice([treegen.FIFO, treegen.CHR]), mode=0o600, dev=(1, 3)))
     ents = sorted(ents, key=lambda e: (e.path.count(b"/"), e.path))
